@@ -10,6 +10,7 @@ Reading of the objects: a point is a `List ℚ`, its `j`-th coordinate is `p.get
 -/
 import DeapModel.Lemmas.C15Wrap
 import DeapModel.Lemmas.C15Measure
+import DeapModel.Lemmas.C15Sweep2d
 
 namespace C15
 open Hypervolume MeasureTheory
@@ -234,5 +235,144 @@ example : ([[1, 2], [2, 1]] : List (List ℚ)) ≠ [] ∧ ∀ v ∈ ([[1, 2], [2
   intro v hv
   simp only [List.mem_cons, List.not_mem_nil, or_false] at hv
   rcases hv with rfl | rfl <;> rfl
+
+/-! ### The algorithm: the transcription `Core/HvSweep.lean` of `pyhv._HyperVolume`
+
+`HvSweep.compute front ref` runs `preProcess` (multi-linked list, node ids for pointers) and
+`hvRecursive` (base cases `dimIndex == 0`, `== 1`, general case with bounds pruning, `ignore` marking,
+`remove` / `reinsert`) exactly as pyhv.py does; the correspondence run diffs it against pyhv's value AND
+observable final state on every hypervolume case.  Proved here: it terminates in every dimension and hands
+the lists back intact; it computes the specification for `d ≤ 2`; and the specification of its recursive
+step (slab decomposition) in every dimension.  Open: that the general case with its caches implements that
+step for `d ≥ 3` (`sweep_eq_hvCells_Statement`). -/
+
+open HvSweep in
+/-- **Termination in every dimension**: with the fuel `n + 1` that `compute` supplies, no pointer-following
+loop of the transcription ever runs out of fuel — on any input, of any dimension. -/
+theorem sweep_terminates (front : List (List ℚ)) (ref : List ℚ) : ∃ v, compute front ref = some v := by
+  obtain ⟨v, S', h, _⟩ := computeSt_terminates front ref
+  exact ⟨v, by unfold compute; rw [h]; rfl⟩
+
+open HvSweep in
+/-- … and when it returns, every `next` / `prev` pointer of the multi-list is what `preProcess` built:
+each `remove` has been undone by its `reinsert` (the dancing-links discipline of the sweep). -/
+theorem sweep_restores_lists (front : List (List ℚ)) (ref : List ℚ) :
+    ∃ v S', computeSt front ref = some (v, S') ∧
+      ∀ i a, nx S' i a = nx (preProcess ([] :: translate front ref) ref.length front.length) i a ∧
+             pv S' i a = pv (preProcess ([] :: translate front ref) ref.length front.length) i a :=
+  computeSt_terminates front ref
+
+open HvSweep in
+/-- **`sweep_1d`**: in one dimension the transcribed algorithm returns the specification. -/
+theorem sweep_1d (r : ℚ) (xs : List ℚ) (hle : ∀ x ∈ xs, x ≤ r) :
+    compute (xs.map (fun x => [x])) [r] = some (hvCells [r] (xs.map (fun x => [x]))) :=
+  sweep_1d' r xs hle
+
+example : ∀ x ∈ ([1, 3, 2] : List ℚ), x ≤ 3 := by
+  intro x hx
+  simp only [List.mem_cons, List.not_mem_nil, or_false] at hx
+  rcases hx with rfl | rfl | rfl <;> norm_num
+
+open HvSweep in
+/-- **`sweep_2d`**: in two dimensions the transcribed algorithm (`preProcess`, then the staircase loop of
+`dimIndex == 1` over the list sorted by the second coordinate) returns the specification. -/
+theorem sweep_2d (r₁ r₂ : ℚ) (pts : List (ℚ × ℚ)) (hle : ∀ p ∈ pts, p.1 ≤ r₁ ∧ p.2 ≤ r₂) :
+    compute (pts.map toPt) [r₁, r₂] = some (hvCells [r₁, r₂] (pts.map toPt)) :=
+  sweep_2d' r₁ r₂ pts hle
+
+example : ∀ p ∈ ([(1, 2), (2, 1), (3, 3)] : List (ℚ × ℚ)), p.1 ≤ (3 : ℚ) ∧ p.2 ≤ (3 : ℚ) := by
+  intro p hp
+  simp only [List.mem_cons, List.not_mem_nil, or_false] at hp
+  rcases hp with rfl | rfl | rfl <;> norm_num
+
+/-- the 2-D staircase in pyhv's orientation (ascending second coordinate, running minimum of the first) -/
+theorem hv_2d_sweep (r₁ r₂ : ℚ) (p : ℚ × ℚ) (rest : List (ℚ × ℚ))
+    (hsorted : (p :: rest).Pairwise (fun a b => a.2 ≤ b.2)) (hx : p.1 ≤ r₁) (hy : ∀ q ∈ p :: rest, q.2 ≤ r₂) :
+    stairXY r₁ r₂ rest p.2 (p.1 - r₁) 0 = hvCells [r₁, r₂] ((p :: rest).map toPt) :=
+  stairXY_eq_hvCells r₁ r₂ p rest hsorted hx hy
+
+example : ([(2, 1), (1, 2)] : List (ℚ × ℚ)).Pairwise (fun a b => a.2 ≤ b.2) ∧ ((2 : ℚ), (1 : ℚ)).1 ≤ (3 : ℚ) ∧
+    ∀ q ∈ ([(2, 1), (1, 2)] : List (ℚ × ℚ)), q.2 ≤ (3 : ℚ) := by
+  refine ⟨by simp, by norm_num, ?_⟩
+  intro q hq
+  simp only [List.mem_cons, List.not_mem_nil, or_false] at hq
+  rcases hq with rfl | rfl <;> norm_num
+
+/-- **The recursive step, every dimension**: adding a point whose leading coordinate is the largest adds the
+slab `(r − z) × ((d−1)-dimensional hypervolume with the point − without it)`. -/
+theorem hv_slab_step (r : ℚ) (ref : List ℚ) (P : List Pt) (p : Pt)
+    (hz : ∀ s ∈ P, s.headD 0 ≤ p.headD 0) (hr : p.headD 0 ≤ r) :
+    hvCells (r :: ref) (p :: P) = hvCells (r :: ref) P
+      + (r - p.headD 0) * (hvCells ref ((p :: P).map List.tail) - hvCells ref (P.map List.tail)) :=
+  hvCells_add_top_slab r ref P p hz hr
+
+example : (∀ s ∈ ([[1, 2, 0]] : List Pt), s.headD 0 ≤ ([2, 0, 1] : Pt).headD 0) ∧ ([2, 0, 1] : Pt).headD 0 ≤ (3 : ℚ) := by
+  refine ⟨?_, by norm_num⟩
+  intro s hs
+  simp only [List.mem_singleton] at hs
+  rw [hs]; norm_num
+
+/-- **Slab decomposition, every dimension** — the specification of the sweep's general step: for points
+sorted by the swept coordinate, `hv_d = Σ over the points of hv_{d−1}(prefix) × thickness of the slab`
+(`slabFold` accumulates exactly as the loop l.163-176 does: `hvol += area(prefix) · (z_next − z)`). -/
+theorem hv_slab_decomposition (r : ℚ) (ref : List ℚ) (p : Pt) (rest : List Pt)
+    (hsorted : (p :: rest).Pairwise (fun a b => a.headD 0 ≤ b.headD 0)) (hr : ∀ s ∈ p :: rest, s.headD 0 ≤ r) :
+    slabFold r ref rest [p] (p.headD 0) 0 = hvCells (r :: ref) (p :: rest) :=
+  slabFold_eq_hvCells r ref p rest hsorted hr
+
+example : ([[1, 2, 0], [2, 0, 1]] : List Pt).Pairwise (fun a b => a.headD 0 ≤ b.headD 0) ∧
+    ∀ s ∈ ([[1, 2, 0], [2, 0, 1]] : List Pt), s.headD 0 ≤ (3 : ℚ) := by
+  refine ⟨by simp, ?_⟩
+  intro s hs
+  simp only [List.mem_cons, List.not_mem_nil, or_false] at hs
+  rcases hs with rfl | rfl <;> norm_num
+
+/-- The full correctness statement of the transcribed algorithm: for every dimension `d ≥ 1`, every list of
+points of that dimension at or below the reference, it returns the specification.  NOT proved for `d ≥ 3`
+(the area / volume caches, bounds pruning and `ignore` marks of the general case are only validated by the
+correspondence run); nothing below depends on it. -/
+def sweep_eq_hvCells_Statement : Prop :=
+  ∀ (ref : List ℚ) (front : List (List ℚ)), 1 ≤ ref.length → (∀ p ∈ front, p.length = ref.length) →
+    (∀ p ∈ front, ∀ j < ref.length, p.getD j 0 ≤ ref.getD j 0) →
+    HvSweep.compute front ref = some (hvCells ref front)
+
+/-- the proved part: dimensions 1 and 2 (extra hypothesis `ref.length ≤ 2`) -/
+theorem sweep_eq_hvCells_partial (ref : List ℚ) (front : List (List ℚ)) (hd : 1 ≤ ref.length) (hd2 : ref.length ≤ 2)
+    (hlen : ∀ p ∈ front, p.length = ref.length)
+    (hle : ∀ p ∈ front, ∀ j < ref.length, p.getD j 0 ≤ ref.getD j 0) :
+    HvSweep.compute front ref = some (hvCells ref front) := by
+  match ref, hd, hd2 with
+  | [r], _, _ =>
+    have hfront : front = (front.map (fun p => p.headD 0)).map (fun x => [x]) := by
+      rw [List.map_map]
+      conv_lhs => rw [← List.map_id front]
+      apply List.map_congr_left
+      intro p hp
+      exact HvSweep.list_len1 p (hlen p hp)
+    rw [hfront]
+    apply sweep_1d
+    intro x hx
+    obtain ⟨p, hp, rfl⟩ := List.mem_map.mp hx
+    have := hle p hp 0 (by simp)
+    cases p <;> simpa using this
+  | [r₁, r₂], _, _ =>
+    have hfront : front = (front.map (fun p => (p.getD 0 0, p.getD 1 0))).map toPt := by
+      rw [List.map_map]
+      conv_lhs => rw [← List.map_id front]
+      apply List.map_congr_left
+      intro p hp
+      exact HvSweep.list_len2 p (hlen p hp)
+    rw [hfront]
+    apply sweep_2d
+    intro q hq
+    obtain ⟨p, hp, rfl⟩ := List.mem_map.mp hq
+    exact ⟨by simpa using hle p hp 0 (by simp), by simpa using hle p hp 1 (by simp)⟩
+
+example : 1 ≤ ([3, 3] : List ℚ).length ∧ ([3, 3] : List ℚ).length ≤ 2 ∧
+    (∀ p ∈ ([[1, 2], [2, 1]] : List (List ℚ)), p.length = ([3, 3] : List ℚ).length) := by
+  refine ⟨by simp, by simp, ?_⟩
+  intro p hp
+  simp only [List.mem_cons, List.not_mem_nil, or_false] at hp
+  rcases hp with rfl | rfl <;> rfl
 
 end C15
